@@ -28,8 +28,13 @@ def rand_loc_case(rng):
     cs = rng.randint(0, glen // 3)
     ce = rng.randint(2 * glen // 3, glen)
     span = (ce - cs) if pmode == "chunk" else glen
-    ov = rng.random() < 0.2
-    blocks = [list(b) for b in G.rand_layout(rng, span, rng.choice([1, 2, 3, 5]), overlap=ov, allow_empty_blocks=rng.random() < 0.3)]
+    ov = rng.random() < 0.3
+    blocks = [list(b) for b in G.rand_layout(rng, span, rng.choice([1, 2, 3, 5]), overlap=ov, allow_empty_blocks=(not ov) and rng.random() < 0.3)]
+    if ov:
+        # make sure two blocks really share a base (random placement rarely does): a block nested in / straddling the first one
+        s0, e0 = next(((s, e) for s, e in blocks if e - s >= 1), (0, min(2, span)))
+        blocks.append(rng.choice([[s0, min(span, e0 + 1)], [s0, e0], [max(0, s0 - 1), s0 + 1]]))
+        blocks.sort()
     other = [list(b) for b in G.rand_layout(rng, span, rng.choice([1, 2, 3]), overlap=False, allow_empty_blocks=False)]
     return {"kind": "loc", "blocks": blocks, "strand": rng.choice("++--."), "compound": len(blocks) > 1 or rng.random() < 0.3,
             "other": other, "ostrand": rng.choice("+-+-."), "ocompound": len(other) > 1, "pmode": pmode, "genome": genome, "alphabet": alpha,
@@ -48,7 +53,10 @@ def rand_seq_case(rng):
 
 def rand_codon_case(rng):
     pool = ["ATG", "atg", "AUG", "TAA", "TAG", "TGA", "CTG", "TTG", "GTG", "NNN", "ATN", "GCN", "RAY", "AT", "ATGA", "XYZ", "A-G", "cTg", "ATA"]
-    return {"kind": "codon", "codon": rng.choice(pool), "noise": [rng.choice(pool) for _ in range(6)]}
+    c = rng.choice(pool)
+    # noise: codons that share two letters with the root (registry keys that are too coarse collide), other spellings, random ones
+    near = [c[:2] + x for x in "ACGTN"] + [x + c[1:] for x in "ACGT"] + [c.lower(), c.upper().replace("T", "U"), c[::-1]]
+    return {"kind": "codon", "codon": c, "noise": rng.sample(near, 6) + [rng.choice(pool) for _ in range(4)]}
 
 
 GENE_ROOTS = ("tx", "cds", "feat", "var", "gene", "fcoll", "vcoll", "coll")
@@ -89,8 +97,38 @@ def rand_gene_layer_case(rng, root):
         if spec is None:
             continue
         add_reserved_qualifiers(rng, spec, root)
+        if parent["mode"] in ("chrom", "chunk", "chunk-minus"):
+            for t in ([spec] if root in ("tx", "cds") else spec.get("transcripts", []) if root == "gene" else
+                      [t for g in spec.get("genes", []) for t in g["transcripts"]] if root == "coll" else []):
+                if t.get("cds") and rng.random() < 0.6:
+                    engineer_cds(rng, parent, t)
         return {"kind": root, "spec": spec, "parent": parent, "seqname": seqname, "hostile": c["hostile"]}
     raise RuntimeError("generator could not produce a root of kind " + root)
+
+
+def engineer_cds(rng, parent, t):
+    """Rewrite the chromosome under a CDS so that translation succeeds and its memoised variants differ: unambiguous bases,
+    an (alternative) start codon first, an in-frame stop in the middle, maybe a stop at the end."""
+    from bcv.models import framemodel as FM
+    from bcv.models import seqmodel as SM
+
+    strand = t["strand"]
+    cod = FM.codons([tuple(b) for b in t["cds"]], strand, [int(f) for f in t["frames"]])
+    if len(cod) < 3:
+        return
+    g = list(parent["genome"])
+
+    def put(pos, text):
+        for p, ch in zip(pos, text):
+            g[p] = SM.COMP[ch] if strand == "-" else ch
+
+    for c in cod:
+        put(c, "".join(rng.choice("ACGT") for _ in range(3)))
+    put(cod[0], rng.choice(["ATG", "ATG", "CTG", "TTG", "GTG", "ATA", "GCC"]))
+    if rng.random() < 0.7:
+        put(cod[rng.randrange(1, len(cod) - 1)], rng.choice(["TAA", "TAG", "TGA"]))
+    put(cod[-1], rng.choice(["TAA", "TGA", "TAG", "GCA"]))
+    parent["genome"] = "".join(g)
 
 
 RESERVED = {"gene": ["gene_id", "gene_name", "gene_biotype", "locus_tag"], "tx": ["transcript_id", "transcript_name", "transcript_biotype", "protein_id"],
@@ -718,9 +756,10 @@ def _interval_catalogue(obj, cn, case, path, rebuild):
         except Exception:  # noqa: BLE001 - e.g. an interval sliced away by its chunk
             cs, ce = 0, 1
         cm = (cs + ce) // 2
-        add("intersect(left-half)", lambda o, a: o.intersect(SingleInterval(cs, max(cs + 1, cm), Strand.PLUS, parent=o.chunk_relative_location.parent)))
-        add("intersect(right-half,quals)", lambda o, a: o.intersect(SingleInterval(cm, max(cm + 1, ce), Strand.MINUS, parent=o.chunk_relative_location.parent),
-                                                                     new_qualifiers=a["q"]), lambda: {"q": {"k": ["v", "w"], "note": ["n"]}})
+        add("intersect(left-half)", lambda o, a: o.intersect(a["loc"]),
+            lambda: {"loc": SingleInterval(cs, max(cs + 1, cm), Strand.PLUS, parent=S.build_parent(pspec))})
+        add("intersect(right-half,quals)", lambda o, a: o.intersect(a["loc"], new_qualifiers=a["q"]),
+            lambda: {"loc": SingleInterval(cm, max(cm + 1, ce), Strand.MINUS, parent=S.build_parent(pspec)), "q": {"k": ["v", "w"], "note": ["n"]}})
 
     named, storm = _windows(lo, hi)
     if cn == "CDSInterval":
@@ -840,8 +879,16 @@ def _schema_roundtrip(o):
     return [AnnotationCollectionModel.Schema().dump(m), m.to_annotation_collection()]
 
 
+CATALOGUE_REFUSALS = [0]
+
+
 def catalogue(obj, case, path, rebuild):
-    out = auto_catalogue(obj) + fixed_catalogue(obj, case, path, rebuild)
+    out = auto_catalogue(obj)
+    try:
+        out = out + fixed_catalogue(obj, case, path, rebuild)
+    except Exception:  # noqa: BLE001 - reading the argument values off the throw-away build was refused by the library (e.g. an
+        # unbounded empty collection): that refusal is C19's business; the target keeps its discovered catalogue
+        CATALOGUE_REFUSALS[0] += 1
     for a in out:
         if a.name in HOT:
             a.hot = True
